@@ -14,8 +14,9 @@
 (*             time; and reads of one goroutine never go back in time                                                *)
 (*   snapshot, compact (ScheduleFullCompaction), backup     no effect on `model` (that is C01/C38's claim, judged here *)
 (*             under concurrency by the reads around them); any result                                               *)
-(*   close     no write or delete is half-applied (Shard.Close excludes them); afterwards every operation fails        *)
-(*             without effect                                                                                        *)
+(*   close     no write is half-applied (Shard.WritePoints excludes Close); afterwards every operation fails without    *)
+(*             effect, except a range delete that Close overtook (the delete methods do not exclude Close): it goes on   *)
+(*             or fails, and having failed it may have deleted any part of its range                                   *)
 (*   final     (after Close and a reopen) every key reads exactly `model`: what the concurrent run acknowledged is    *)
 (*             what a restart serves                                                                                 *)
 (* Accepted iff the last line is reachable (high-water mark in TLC register 1, DESIGN A.3): -workers 1, StateDeque.    *)
@@ -63,7 +64,10 @@ TCall == /\ l <= N /\ Trace[l].ev = "call"
          /\ pend' = [pend EXCEPT ![Trace[l].t] = OpOf(Trace[l])]
          /\ l' = l + 1 /\ UNCHANGED <<model, closed, ever, Impl>>
 
-HalfApplied(p) == p.op \in {"write", "delete"} /\ p.started /\ ~p.done
+\* Shard.WritePoints keeps the shard open while it runs (s.mu.RLock): Close never finds a write half-applied.  The delete methods
+\* do not (known finding delete_racing_close_...): Close may come while a delete is half-applied; that delete then goes on or
+\* gives up with an error, and as it was never acknowledged each point of its range may be deleted or not (C02's rule).
+HalfApplied(p) == p.op = "write" /\ p.started /\ ~p.done
 
 Lin(t) ==
   LET p == pend[t] IN
@@ -80,8 +84,14 @@ Lin(t) ==
         /\ \E u \in p.todo :
              LET rest == p.todo \ {u}
              IN /\ model' = [model EXCEPT ![p.k][u] = None]
-                /\ pend' = [pend EXCEPT ![t].todo = rest, ![t].started = TRUE, ![t].done = (rest = {})]
+                /\ pend' = [pend EXCEPT ![t].todo = rest, ![t].started = TRUE]
         /\ UNCHANGED <<closed, ever>>
+     \/ /\ p.op = "delete" /\ p.started /\ p.todo = {}             \* every point of the range is gone: the delete returns nil
+        /\ pend' = [pend EXCEPT ![t].done = TRUE]
+        /\ UNCHANGED <<model, closed, ever>>
+     \/ /\ p.op = "delete" /\ closed /\ p.started              \* overtaken by Close: fails (its last act, the WAL entry, or earlier), whatever part of its range it had deleted
+        /\ pend' = [pend EXCEPT ![t].done = TRUE, ![t].ok = FALSE]
+        /\ UNCHANGED <<model, closed, ever>>
      \/ /\ p.op = "read" /\ ~closed
         /\ pend' = [pend EXCEPT ![t].done = TRUE, ![t].res = ReadFrom(model, p.k, p.lo, p.hi, p.asc),
                                 ![t].snp = model[p.k], ![t].evr = ever[p.k],
